@@ -4,6 +4,7 @@ Values are affine forms  c0 + Σ ci * sym_i  over opaque symbols (values at the 
 identified by their call site, fields of such results).  A ghost variable can be updated by a client hook at
 selected call sites.  Used for the scanner's cursor/coverage invariant (C01/A4, C06/G5).
 """
+import re
 from .facts import op_place, op_const, const_int, callee_def
 from .common import strip_generics
 
@@ -81,6 +82,8 @@ class Aff:
     def operand(self, env, op):
         k = op_const(op)
         if k is not None and isinstance(k, dict) and "ty" in k:
+            if k.get("generic") and k.get("s") and re.match(r"^u(8|16|32|64|size)$", k["ty"]):
+                return aff_sym("param:%s" % k["s"])          # an unsigned const generic parameter: some fixed value >= 0
             v = const_int(k)
             return aff_const(v) if v is not None else TOP
         p = op_place(op)
